@@ -64,6 +64,17 @@ func (c *FuncCtx) get(s *State, k string) Term {
 	if !ok {
 		panic("unregistered state key " + k)
 	}
+	if t, ok := c.constGlobals[k]; ok {
+		s.m[k] = t
+		return t
+	}
+	if ki.local && strings.HasPrefix(k, "G:") {
+		// a package-level variable that is never assigned: one value for the whole function
+		t := c.initVal(k, ki.sort, &Base{id: 0})
+		c.constGlobals[k] = t
+		s.m[k] = t
+		return t
+	}
 	t := c.initVal(k, ki.sort, s.base)
 	s.m[k] = t
 	return t
@@ -120,7 +131,9 @@ func (c *FuncCtx) havocAll(s *State) {
 	s.base = c.newBase()
 	if prev != nil {
 		s.base.prev = prev
-		s.base.private = append([]Term{}, c.privateRefs...)
+		for _, p := range c.privateRefs {
+			s.base.private = append(s.base.private, p.t)
+		}
 	}
 	// the epoch is registered lazily; make it strictly increasing across havocs when in use,
 	// and remember the havoc so that an epoch registered later is still fresh per base.
